@@ -365,6 +365,16 @@ def nt_pipeline(o):
 
 
 PROPS = {
+    'C19': {'families': ['pipeline'], 'nontrivial': lambda o: any(e.get('fired') and 'perReferencePointsDifferences' in str(e.get('report')) for e in o.get('events', [])),
+            'rule': 'non-trivial = request in which an anchoring bias fired; distinct by request'},
+    'C18': {'families': ['pipeline'], 'nontrivial': lambda o: any(e.get('fired') and ('addedCriteria' in str(e.get('report')) or 'component1' in str(e.get('report'))) for e in o.get('events', [])),
+            'rule': 'non-trivial = request in which a concealment or mixing bias fired; distinct by request'},
+    'C15': {'families': ['pipeline'], 'nontrivial': lambda o: any(e.get('fired') and 'omittedCriteria' in str(e.get('report')) for e in o.get('events', [])),
+            'rule': 'non-trivial = request in which a criteria-omission bias fired; distinct by request'},
+    'C16': {'families': ['pipeline'], 'nontrivial': lambda o: any(e.get('fired') and 'reversedPreferenceCriteria' in str(e.get('report')) for e in o.get('events', [])),
+            'rule': 'non-trivial = request in which a preference-reversal bias fired; distinct by request'},
+    'C17': {'families': ['pipeline'], 'nontrivial': lambda o: any(e.get('fired') and 'effectiveFatigueRatio' in str(e.get('report')) for e in o.get('events', [])),
+            'rule': 'non-trivial = request in which a fatigue bias fired; distinct by request'},
     'C07': {'families': ['pipeline'], 'nontrivial': nt_pipeline,
             'rule': 'non-trivial = request in which at least one bias fired; distinct by request'},
     'C06': {'families': ['electre'], 'nontrivial': nt_electre2,
